@@ -49,7 +49,7 @@ def run(facts, res):
                 if st.kind == "assign" and st.place.proj and any(p["k"] == "field" and p["n"] == "revisions" and p.get("of") == TREE for p in st.place.proj):
                     if b.name != "new":
                         res.violation("L1", "%s|assigns-revisions" % b.path, "%s overwrites the revision map" % b.path, b.loc(st.line))
-    res.floor("L1", "mutators of RevisionTree.revisions", len(muts), 3)
+    res.floor("L1", "mutators of RevisionTree.revisions", len(muts), 1)
     for (b, bi, t) in muts:
         n = t.callee.name
         ok = False
@@ -167,7 +167,7 @@ def run(facts, res):
                 res.violation("L2", "%s|apply-without-revalidation" % opb.path,
                               "%s can return normally after applying remote changes without re-validating every revision tree "
                               "(validate sites: %d, whole document map: %s)" % (opb.path, len(v_sites), whole), opb.loc())
-    res.floor("L2", "operations applying remote changes", n_ops, 3)
+    res.floor("L2", "operations applying remote changes", n_ops, 2)
 
     # ------------------------------------------------------------------ L3
     lt = facts.struct_field_ty(TREE, "leafs_cache")
@@ -238,7 +238,7 @@ def run(facts, res):
         res.instance("L4", "%s parses every name of the complete block listing: %s" % (name, ok), b.loc())
         if not ok:
             res.violation("L4", "%s|listing-not-complete" % name, "%s does not parse every name returned by list_raw_items(DELTA_EXTENSION)" % name, b.loc())
-    res.floor("L4", "apply / parse loops", n4, 5)
+    res.floor("L4", "apply / parse loops", n4, 3)
 
 
 def thorough(res):
